@@ -195,8 +195,18 @@ Definition attr_get_class (s : schema) (guarded : bool) (cur : nat) (seed : bool
    from the link table, which loads and thereby refines them; since 233f906 only while the owner's session is alive (a detached object
    hands out its already loaded collection as it is: C32's territory, outside this definition) *)
 Definition collection_item_class (s : schema) (cur real : nat) : nat := match refine s cur real with Some c => c | None => cur end.
-(* Entity.__setstate__-side: a reference restored from a pickle is an object of the declared class marked as loaded; nothing refines it *)
-Definition unpickled_ref_class (cur real : nat) : nat := cur.
+(* a reference restored from a pickle that carried only its primary key: since fix 3acf097 unpickle_entity leaves it an unloaded
+   placeholder (it no longer calls _db_set_ with nothing to set, which used to drop it from cache.seeds), so reading it loads and refines it *)
+Definition unpickled_ref_class (s : schema) (cur real : nat) : nat := match refine s cur real with Some c => c | None => cur end.
+
+(* _get_from_identity_map_ when an object already in the map with class cur is met again through a reference whose declared type is d:
+   as [refine]; and since fix cb35764 an unloaded placeholder is kept when the two classes are unrelated but share a subclass (both may be
+   bases of the stored class: the row decides when the object is loaded) *)
+Definition meet_again (s : schema) (cur : nat) (seed : bool) (d : nat) : option nat :=
+  match refine s cur d with
+  | Some c => Some c
+  | None => if seed && common_subclass s cur d then Some cur else None
+  end.
 
 (* ------------------------------------------------------------------ a query over e whose condition reads an attribute declared by class c (e itself or one of
    its subclasses: ObjectMixin.getattr also looks in entity._subclass_adict_).  All classes of a tree share one table; the column of an
